@@ -350,7 +350,19 @@ func ruleC30(c *Ctx) {
 				}
 			}
 		}
-		c.Require("callseq", fname(ih)+": H(prefix ‖ left ‖ right)", strings.Join(seq, " ") == "prefix left right", "sequence %v", seq)
+		nodeWrites := 0
+		for _, s := range seq {
+			if s != "prefix" {
+				nodeWrites++
+			}
+		}
+		if nodeWrites == 0 {
+			// neither child is written by a recognisable straight-line call (e.g. a variadic helper
+			// looping over its arguments): the order cannot be read off the code — undecided, not violated
+			c.Machinef("%s: the writes of the two children are not straight-line calls (sequence %v); H(prefix ‖ left ‖ right) undecided", fname(ih), seq)
+		} else {
+			c.Require("callseq", fname(ih)+": H(prefix ‖ left ‖ right)", strings.Join(seq, " ") == "prefix left right", "sequence %v", seq)
+		}
 	}
 	if p := c.TPkg(pTypes); p != nil {
 		// the two prefixes differ
